@@ -739,13 +739,15 @@ def unit_kernel_history(mode):
             for c in range(nctrl):
                 for d in range(nctrl):
                     ctx.equal("DFTKernel[%s].get_kctrl %s: entry [%d,%d] is computed from the current kernel and control points" % (mode, label, c, d), [], Kmm[c, d], W[c, d], fq,
-                              replay=replay_kernel_history())
+                              replay=replay_kernel_history(mode))
         ctx.canary("DFTKernel[%s] history canary (old and new kernel differ)" % mode, [], want(K1, Xc)[0, 1], want(K2, Xc)[0, 1])
     return run
 
 
-def replay_kernel_history():
+def replay_kernel_history(mode="NPOL"):
     def replay(wit):
+        """Native: control-point covariance after set_kernel, against the documented formula with the CURRENT kernel and control points (POL: spin-polarised control
+        points, k_aa k_bb + k_ab k_ba)."""
         from pyvc import native
         native.install_shim()
         from sklearn.gaussian_process.kernels import RBF
@@ -753,13 +755,20 @@ def replay_kernel_history():
 
         class FL(object):
             nfeat = 2
-        dk = DFTKernel(RBF(1.0), FL(), "NPOL", None)
-        dk.X1ctrl = np.array([[0.0, 0.0], [1.0, 0.5]])
+        dk = DFTKernel(RBF(1.0), FL(), mode, None)
+        rng = np.random.RandomState(2)
+        dk.X1ctrl = rng.rand(2, 3, 2) if mode == "POL" else np.array([[0.0, 0.0], [1.0, 0.5]])
         k_old = dk.get_kctrl().copy()
         dk.set_kernel(RBF(0.3))
         k_new = dk.get_kctrl()
-        ref = RBF(0.3)(dk.X1ctrl)
-        return {"reproduced": bool(np.max(np.abs(k_new - ref)) > 1e-12), "K01_old_kernel": float(k_old[0, 1]), "K01_returned_after_set_kernel": float(k_new[0, 1]), "K01_of_the_new_kernel": float(ref[0, 1])}
+        K = RBF(0.3)
+        if mode == "POL":
+            a, b = dk.X1ctrl
+            ref = K(a, a) * K(b, b) + K(a, b) * K(b, a)
+        else:
+            ref = K(dk.X1ctrl, dk.X1ctrl)
+        return {"reproduced": bool(np.max(np.abs(k_new - ref)) > 1e-12), "mode": mode, "K01_old_kernel": float(k_old[0, 1]), "K01_returned_after_set_kernel": float(k_new[0, 1]),
+                "K01_of_the_new_kernel": float(ref[0, 1]), "max |Kmm - formula|": float(np.max(np.abs(k_new - ref)))}
     return replay
 
 
